@@ -103,6 +103,21 @@ func genKeyMultiset(rt *rapid.T, g *aval.Gen, mi *dyn.MethodInfo) []*aval.V {
 				k = g.Prim(rt, kt.Prim, "z")
 				k.F = rapid.SampledFrom([]string{"0", "-0"}).Draw(rt, "zsign")
 			}
+		case 5, 6:
+			if isCaseInsensitiveKey(kt) && len(keys) > 0 { // the same id in another spelling: equal under the registered equality
+				prev := keys[rapid.IntRange(0, len(keys)-1).Draw(rt, "dupcase")].Str()
+				k = aval.Str(strings.Map(func(r rune) rune {
+					switch {
+					case r >= 'a' && r <= 'z':
+						return r - 32
+					case r >= 'A' && r <= 'Z':
+						return r + 32
+					}
+					return r
+				}, prev))
+			} else if isCaseInsensitiveKey(kt) {
+				k = aval.Str(rapid.SampledFrom([]string{"Abc", "abc", "ABC", "id-1", "ID-1", "x"}).Draw(rt, "caseid"))
+			}
 		case 4:
 			if kt.Prim == "string" || (kt.Ref != nil && kt.Ref.Name == "TString") { // keys differing only in escaping-relevant characters
 				k = aval.Str(rapid.SampledFrom([]string{"a b", "a+b", "a%20b", "a%2Bb", "a,b", "a%2Cb", "(a)", "%28a%29", "'", "''", "", "%27%27", "a:b", "a%3Ab"}).Draw(rt, "esc"))
